@@ -413,3 +413,26 @@ for _pid, _pairs in _AMEND.items():
     for _old, _new in _pairs:
         assert _old in CLAIMS[_pid]["level"], (_pid, _old)
         CLAIMS[_pid]["level"] = CLAIMS[_pid]["level"].replace(_old, _new)
+
+# rounds 5 and 6 of seeded changes (DESIGN.md section 11): clauses added to the decided level
+_APPEND = {
+    "C01": " The keys of pass-through units are parsed from the unit id only on rows taken from the feed (baseline units keep their known county / district).",
+    "C02": " A condition the configuration does not decide (a defensive `if column in frame.columns`) is enumerated: each table is the documented sum on every path.",
+    "C03": " The gaussian unit and group bounds are finite whatever the fitted scale (restated from C15.R4), so the floor cannot be lost to a NaN.",
+    "C05": " The settings container of a request (model_parameters, a mutable default) is never written to, so the covariates of one request cannot reach "
+           "a later covariate-free one (restated from C12.R4).",
+    "C08": " Prediction and bounds of one summary come from the estimates of the same summary call (restated from C12.R7).",
+    "C10": " Which frame a unit below the threshold is a row of (reporting / nonreporting / each exclusion reason) does not depend on its count: complete "
+           "truth table over the count-derived atoms of the unit split (turnout-factor limits, outlier flags).",
+    "C11": " The numbers of a pass-through unit that the models read are NaN-free (restated from C01.R1), so one extra row cannot spread a NaN to other groups.",
+    "C12": " Nothing reachable from the national-summary entry point - which can be called any number of times on the model one run left on the client - draws "
+           "from a generator stored on an object, so the n-th summary does not depend on the n-1 before it.",
+    "C13": " The interval columns of one level are filled from that level's intervals alone (restated from C02.R5), not from a combination over the requested levels.",
+    "C16": " The per-state feature copies are written per state that has a reporting unit (also when the state list is derived or hoisted).",
+    "C17": " Every return that hands back estimates - shortcuts included - is dominated by both irregularity tests.",
+    "C18": " Write sites are judged by module also when writers are merged or inlined, and no storage key is formatted with a collection.",
+    "C19": " The missing download is never dereferenced outside the 'is not None' path, so an empty window stays 'no data' rather than a TypeError.",
+    "C20": " Fits made through functools.partial are read with the bound arguments in place.",
+}
+for _pid, _txt in _APPEND.items():
+    CLAIMS[_pid]["level"] = CLAIMS[_pid]["level"].rstrip() + _txt
